@@ -24,6 +24,8 @@ pub enum H {
     Hint,
     /// continue on a clone of the iterator (view iterator only)
     Clone,
+    /// Iterator::nth(k): skips k items and yields the next; may overshoot the end
+    Nth(usize),
 }
 
 #[derive(Clone, Debug, Serialize, Deserialize)]
@@ -100,8 +102,18 @@ fn gen_hist(rng: &mut Rng, n: usize, allow_clone: bool) -> Vec<H> {
     let p_other = *rng.pick(&[0u64, 10, 30, 60]);
     let mut h = vec![];
     let mut nexts = 0;
+    let p_nth = *rng.pick(&[0u64, 0, 5, 15]);
     while nexts < total_next {
-        if rng.below(100) < p_other {
+        if rng.below(100) < p_nth {
+            // mostly short skips, now and then one that overshoots the end by far
+            let k = match rng.below(6) {
+                0 => n + rng.range(0, 3),
+                1 => usize::MAX - rng.range(0, 1),
+                _ => rng.range(0, 3),
+            };
+            h.push(H::Nth(k));
+            nexts += k.min(total_next) + 1;
+        } else if rng.below(100) < p_other {
             h.push(match rng.below(if allow_clone { 5 } else { 4 }) {
                 0 | 1 => H::Len,
                 2 | 3 => H::Hint,
@@ -198,6 +210,26 @@ impl<'a> HistJudge<'a> {
                             }
                         }
                         H::Clone => {}
+                        H::Nth(k) => {
+                            // model: skip k items (clamped at the end), then behave like next()
+                            let at = p.saturating_add(*k);
+                            let want = expected.get(at).cloned();
+                            let got = item.unwrap_or(None);
+                            if got != want {
+                                let what = match (&got, &want) {
+                                    (Some(_), None) => "yields_item_after_end",
+                                    (None, Some(_)) => "ends_early",
+                                    _ => "wrong_item",
+                                };
+                                self.out.violate(
+                                    "iterator_sequence",
+                                    format!("C19 {} nth {phase} {what}", self.iter_name),
+                                    format!("{} step {step}: nth({k}) expected {want:?} got {got:?}", self.detail),
+                                );
+                                return;
+                            }
+                            p = if at >= n { n.max(p) } else { at + 1 };
+                        }
                     }
                 }
             }
@@ -223,14 +255,26 @@ impl Prop for C19 {
     }
     fn n_cases(&self, tier: Tier) -> u64 {
         match tier {
-            Tier::Quick => 3905,
-            Tier::Thorough => 3905 * 100,
+            // the grid, plus shapes beyond it (6..12 axes) as a guard against fixed-size assumptions
+            Tier::Quick => 3905 + 160,
+            Tier::Thorough => 3905 * 100 + 4000,
         }
     }
 
     fn gen(&self, seed: u64, idx: u64, _tier: Tier) -> Case {
         let mut rng = Rng::new(seed);
-        let shape = nth_shape(idx);
+        let grid_cases = if _tier == Tier::Thorough { 3905 * 100 } else { 3905 };
+        let shape = if idx >= grid_cases {
+            let d = rng.range(6, 12);
+            let mut s: Vec<usize> = (0..d).map(|_| rng.range(1, 2)).collect();
+            if rng.chance(1, 2) {
+                let i = rng.below(d as u64) as usize;
+                s[i] = 3;
+            }
+            s
+        } else {
+            nth_shape(idx)
+        };
         let dims = shape.len();
         let n: usize = shape.iter().product();
         let mut ops = vec![];
@@ -380,6 +424,7 @@ impl Prop for C19 {
                     j.drive(hist, &model, |h| {
                         guarded(|| match h {
                             H::Next => (Some(it.next()), None, None),
+                            H::Nth(k) => (Some(it.nth(k)), None, None),
                             H::Len => (None, Some(it.len()), None),
                             H::Hint => (None, None, Some(it.size_hint())),
                             H::Clone => (None, None, None),
@@ -422,6 +467,11 @@ impl Prop for C19 {
                                 None,
                                 None,
                             ),
+                            H::Nth(k) => (
+                                Some(it.nth(k).map(|v| v.iter().take(n + 1).copied().collect::<Vec<f64>>())),
+                                None,
+                                None,
+                            ),
                             H::Len => (None, Some(it.len()), None),
                             H::Hint => (None, None, Some(it.size_hint())),
                             H::Clone => (None, None, None),
@@ -444,6 +494,7 @@ impl Prop for C19 {
                     j.drive(hist, &expected, |h| {
                         guarded(|| match h {
                             H::Next => (Some(it.next().copied()), None, None),
+                            H::Nth(k) => (Some(it.nth(k).copied()), None, None),
                             H::Len => (None, Some(it.len()), None),
                             H::Hint => (None, None, Some(it.size_hint())),
                             H::Clone => {
@@ -477,6 +528,11 @@ impl Prop for C19 {
                         guarded(|| match h {
                             H::Next => (
                                 Some(it.next().map(|v| v.iter().map(|x| x.to_bits()).collect::<Vec<u64>>())),
+                                None,
+                                None,
+                            ),
+                            H::Nth(k) => (
+                                Some(it.nth(k).map(|v| v.iter().map(|x| x.to_bits()).collect::<Vec<u64>>())),
                                 None,
                                 None,
                             ),
@@ -634,6 +690,7 @@ impl Prop for C19 {
             "view_iter.rank1_view",
             "view_iter.rank>=2_view",
             "dims.5",
+            "dims.10",
         ]
     }
 }
